@@ -1,5 +1,6 @@
 import MosnVerif.Lemmas.TlsSelect
 import MosnVerif.Lemmas.TlsUpdate
+import MosnVerif.Model.TlsTrust
 /-!
 # C13 — TLS policy is enforced as configured (property theorems only)
 
@@ -295,6 +296,117 @@ example : peerAfter .clock .rightCA = .expired ∧ peerAfter .caSwap .otherCA = 
     secondAccepts (getClientAuth true true) .caSwap .otherCA = true := by decide
 
 end Update
+
+/-! ### trust anchors: a configured ca_cert is the ONLY anchor
+
+`Gen.TlsPool` (regenerated from `defaultConfigHooks.GetX509Pool` and `newTLSContext`) says what the pool starts from
+(`x509.NewCertPool` / `x509.SystemCertPool`), what is appended to it, whether an unconfigured ca_cert yields a nil pool,
+and which pool is installed as `RootCAs` / `ClientCAs`. `sys` = the content of the host's root store, `cfg` = the
+authorities of the configured ca_cert — both arbitrary. -/
+section Trust
+open MosnVerif.Model.TlsTrust MosnVerif.Gen.TlsPool
+
+/-- the anchors of a pool of ANY shape (base constructor, appended items), for a configured ca_cert: an authority is an
+anchor iff the base is the system pool and the host's store lists it, or the configured certificates are appended and
+it is one of them. -/
+theorem pool_anchor_iff (nw : Bool) (base : Base) (items : List Item) (sys cfg : List CA) (ca : CA) (h : cfg ≠ []) :
+    ca ∈ effective (poolOf nw base items sys cfg) sys ↔
+      ((base = Base.system ∧ ca ∈ sys) ∨ (Item.configured ∈ items ∧ ca ∈ cfg)) := by
+  have hc : cfg.isEmpty = false := by cases cfg <;> simp_all
+  have hx : (∃ x, x ∈ items) ↔ Item.configured ∈ items :=
+    ⟨fun ⟨x, hx⟩ => by cases x; exact hx, fun h => ⟨_, h⟩⟩
+  cases base <;> simp [poolOf, hc, effective, List.mem_flatMap, hx]
+
+/-- **trust_exact**: for EVERY content of the host's root store and EVERY configured set of authorities (ca_cert
+present), in both directions (a listener verifying clients: `ClientCAs`; a cluster verifying its upstream: `RootCAs`),
+an authority is a trust anchor iff it is one of the CONFIGURED ones. -/
+theorem trust_exact (sys cfg : List CA) (ca : CA) (h : cfg ≠ []) :
+    (ca ∈ listenerAnchors sys cfg ↔ ca ∈ cfg) ∧ (ca ∈ upstreamAnchors sys cfg ↔ ca ∈ cfg) := by
+  have hc : cfg.isEmpty = false := by cases cfg <;> simp_all
+  simp [listenerAnchors, upstreamAnchors, fieldOf, clientCAsSrc, rootCAsSrc, hookPool, poolOf,
+    poolNilWhenUnconfigured, poolBase, poolItems, effective, hc]
+
+/-- without a ca_cert the pool is nil and crypto/x509 uses the host's root store (what newTLSContext documents). -/
+theorem unconfigured_uses_host_store (sys : List CA) :
+    listenerAnchors sys [] = sys ∧ upstreamAnchors sys [] = sys := by
+  simp [listenerAnchors, upstreamAnchors, fieldOf, clientCAsSrc, rootCAsSrc, hookPool, poolOf,
+    poolNilWhenUnconfigured, effective]
+
+/-- **listener_trust_exact**: with verify_client and require_client_cert and a configured ca_cert a handshake succeeds
+iff the peer presents a certificate that was issued by a CONFIGURED authority, is currently valid, and whose key the
+peer holds — whatever the host's root store contains. -/
+theorem listener_trust_exact (sys cfg : List CA) (p : Option Cert) (h : cfg ≠ []) :
+    listenerAccepts sys cfg true true p = true ↔
+      ∃ c, p = some c ∧ c.issuer ∈ cfg ∧ c.expired = false ∧ c.possession = true := by
+  have ha : ∀ ca, ca ∈ listenerAnchors sys cfg ↔ ca ∈ cfg := fun ca => (trust_exact sys cfg ca h).1
+  cases p with
+  | none => simp [listenerAccepts, serverAccepts2, getClientAuth, RequestClientCert, RequireAndVerifyClientCert,
+      requiresClientCert, RequireAnyClientCert]
+  | some c =>
+    simp only [listenerAccepts, serverAccepts2, getClientAuth, RequestClientCert, RequireAndVerifyClientCert,
+      VerifyClientCertIfGiven, chainOK, Option.some.injEq, exists_eq_left']
+    simp
+    grind
+
+/-- **upstream_trust_exact**: with the default hooks, insecure_skip off and a configured ca_cert an upstream handshake
+succeeds iff a server_name is configured and the upstream's certificate was issued by a CONFIGURED authority, is valid
+and carries that name — whatever the host's root store contains. -/
+theorem upstream_trust_exact (sys cfg : List CA) (sn : Bool) (s : SCert) (h : cfg ≠ []) :
+    upstreamAccepts sys cfg false false sn s = true ↔
+      (sn = true ∧ s.cert.issuer ∈ cfg ∧ s.cert.expired = false ∧ s.nameOK = true) := by
+  have ha : ∀ ca, ca ∈ upstreamAnchors sys cfg ↔ ca ∈ cfg := fun ca => (trust_exact sys cfg ca h).2
+  simp [upstreamAccepts, clientAccepts2, clientVerify, chainOK, ha]
+  grind
+
+/-- **trust_spec_holds_on_model**: the predicates the driver evaluates on `trust2` / `trustc2` lines (the statement's
+trust tables over arbitrary stores and configured sets, the sni_verify extension included) hold of the model, for every
+store, configured set (present or not), flag combination and peer. -/
+theorem trust_spec_holds_on_model (sys cfg : List CA) :
+    (∀ req ver p, listenerAccepts sys cfg req ver p = specListenerAccepts sys cfg req ver p) ∧
+    (∀ hook ins sn s, upstreamAccepts sys cfg hook ins sn s = specUpstreamAccepts sys cfg hook ins sn s) := by
+  have hl : listenerAnchors sys cfg = specAnchors sys cfg := by
+    cases cfg <;> simp [listenerAnchors, fieldOf, clientCAsSrc, hookPool, poolOf, poolNilWhenUnconfigured, poolBase,
+      poolItems, effective, specAnchors]
+  have hu : upstreamAnchors sys cfg = specAnchors sys cfg := by
+    cases cfg <;> simp [upstreamAnchors, fieldOf, rootCAsSrc, hookPool, poolOf, poolNilWhenUnconfigured, poolBase,
+      poolItems, effective, specAnchors]
+  constructor
+  · intro req ver p
+    cases req <;> cases ver <;> cases p <;>
+      simp [listenerAccepts, serverAccepts2, hl, specListenerAccepts, specTrusted, chainOK, getClientAuth,
+        RequestClientCert, RequireAndVerifyClientCert, VerifyClientCertIfGiven, NoClientCert, requiresClientCert,
+        RequireAnyClientCert]
+  · intro hook ins sn s
+    cases hook <;> cases ins <;> cases sn <;>
+      simp [upstreamAccepts, clientAccepts2, hu, specUpstreamAccepts, specTrusted, chainOK, clientVerify]
+
+/-- **system_base_leaks** (the negation, for the OTHER base constructor): a pool that starts from the system pool and
+appends the configured certificates trusts every authority of the host's store, configured or not. -/
+theorem system_base_leaks (sys cfg : List CA) (ca : CA) (h : ca ∈ sys) :
+    ca ∈ effective (poolOf true Base.system [Item.configured] sys cfg) sys := by
+  cases cfg <;> simp [poolOf, effective, h]
+
+-- non-vacuity: store {3}, configured {0, 1}; authority 2 is private and not configured, 9 = a self-signed certificate
+example : ([0, 1] : List CA) ≠ [] := by decide
+example : listenerAnchors [3] [0, 1] = [0, 1] ∧ upstreamAnchors [3] [0] = [0] ∧ listenerAnchors [3] [] = [3] := by decide
+example : listenerAccepts [3] [0, 1] true true (some ⟨1, false, true⟩) = true ∧
+    listenerAccepts [3] [0, 1] true true (some ⟨3, false, true⟩) = false ∧
+    listenerAccepts [3] [0, 1] true true (some ⟨0, true, true⟩) = false ∧
+    listenerAccepts [3] [0, 1] true true (some ⟨0, false, false⟩) = false ∧
+    listenerAccepts [3] [0, 1] false true none = true ∧
+    listenerAccepts [3] [] true true (some ⟨3, false, true⟩) = true := by decide
+example : upstreamAccepts [3] [0] false false true ⟨⟨0, false, true⟩, true, false⟩ = true ∧
+    upstreamAccepts [3] [0] false false true ⟨⟨3, false, true⟩, true, false⟩ = false ∧
+    upstreamAccepts [3] [0] true false false ⟨⟨0, false, true⟩, false, true⟩ = true ∧
+    upstreamAccepts [3] [0] true false false ⟨⟨3, false, true⟩, false, true⟩ = false := by decide
+-- NEGATION WITNESS: with the system pool as the base, authority 3 of the host's store is an anchor of a context whose
+-- ca_cert configures authority 0 only — `trust_exact` fails for that shape
+example : ∃ sys cfg ca, cfg ≠ [] ∧ ca ∈ effective (poolOf true Base.system [Item.configured] sys cfg) sys ∧ ca ∉ cfg :=
+  ⟨[3], [0], 3, by decide⟩
+example : serverAccepts2 (getClientAuth true true) (effective (poolOf true Base.system [Item.configured] [3] [0]) [3])
+    (some ⟨3, false, true⟩) = true := by decide
+
+end Trust
 
 /-! ### non-vacuity and the machine-checked witnesses of the shared-namespace discrepancy -/
 
